@@ -493,3 +493,15 @@ Theorem C20_code_partial_correctness_one_gap_partial : forall (orig keys : list 
   flt (group_begin orig (Z.of_nat g)) (group_end orig (Z.of_nat g) (Z.of_nat (length keys))) = true ->
   forall adj ins, gen_prepare_inserts_code orig keys = Ok (adj, ins) -> Spec orig keys adj ins.
 Proof. intros until ins. rewrite gen_prepare_inserts_code_eq. eapply single_gap_correct; eassumption. Qed.
+
+(* range_around_float itself (math.frexp / ldexp / floor, regenerated into the vocabulary of Model/RelabelFrexp.v) is the
+   shift-and-round model on its whole domain of use: x a non-negative double (begin >= 0 is guarded by
+   prep_inserts_at_index), i one of the 64 levels of _find_sparse_enough_range. *)
+Require Import Grist.Model.RelabelFrexp Grist.Proofs.Relabel_raf_bridge.
+Theorem C20_bridge_range_around_float : forall u i,
+  0 <= i < 64 -> 0 <= u < UOVER -> u mod 2 ^ ulp_exp u = 0 ->
+  gen_range_around_float (FFin false u) i = range_around_float (FFin false u) i.
+Proof. exact gen_range_around_float_eq. Qed.
+Example C20_bridge_range_around_float_nonvacuous :
+  gen_range_around_float f3 2 = Ok (f3, d 4613937818241073156) /\ gen_range_around_float (d 9218868437227405311) 1 = Err 5.
+Proof. split; vm_compute; reflexivity. Qed.
